@@ -534,12 +534,38 @@ def register(R):
     R.builtin_models['os.path.getsize'] = _fs_query('os.path.getsize', _size)
     for nm in ('os.stat', 'os.lstat', 'os.fstat'):
         R.builtin_models[nm] = _fs_query(nm, lambda eng, st: Opaque(fresh_name('stat_result'), kind='stat_result'))
-    R.external('stat_result', **{'.st_size': ExtSpec(returns=Int, pure=True)})
 
     def gfs_checks(c):
         q = [e for e in c.trace if e.kind == 'ext' and e.name.startswith('os.')]
         return {'asks_once_for_the_size_of_the_file_the_path_names': (B(
             len(q) == 1 and q[0].name == 'os.path.getsize' and tuple(q[0].args) == (c.a_filename,) and c.result is q[0].result), ['C01', 'C14'])}
+
+    # ------------------------------------------------------------------ OSUtils.is_special_file: C16 / C02
+    # "a special file given by name" is decided for the file the name RESOLVES to (what open() will write into: os.stat follows
+    # links, /dev/stdout and /dev/fd/N are links): a FIFO / device / socket reached through a link still gets the deferring,
+    # in-order output manager and is never renamed over.
+    R.builtin_models['os.path.exists'] = lambda eng, st, args, kwargs, line: [_ok(eng.opaque_pred(args[0], 'path_exists') if isinstance(args[0], Opaque) else z3.Bool(fresh_name('path_exists')), st)]
+    R.external('stat_result', **{'.st_size': ExtSpec(returns=Int, pure=True), '.st_mode': ExtSpec(returns=lambda eng, st, recv, args, kwargs: z3.Function('st_mode_of', U, z3.IntSort())(recv.term), pure=True)})
+    SPECIAL_KINDS = ('S_ISCHR', 'S_ISBLK', 'S_ISFIFO', 'S_ISSOCK')
+    for k in SPECIAL_KINDS + ('S_ISREG', 'S_ISDIR', 'S_ISLNK'):
+        R.builtin_models['stat.' + k] = lambda eng, st, args, kwargs, line, k=k: [_ok(z3.Function('stat_' + k, z3.IntSort(), z3.BoolSort())(args[0]), st)]
+
+    def isf_checks(c):
+        from .spec import b2z
+        q = [e for e in c.trace if e.kind == 'ext' and e.name in ('os.stat', 'os.lstat', 'os.fstat')]
+        out = {'the_kind_is_that_of_the_file_the_name_resolves_to_links_followed': (B(
+            all(e.name == 'os.stat' and tuple(e.args) == (c.a_filename,) for e in q)), ['C16', 'C02'])}
+        if len(q) == 1 and q[0].result is not None:
+            mode = z3.Function('st_mode_of', U, z3.IntSort())(q[0].result.term)
+            special = z3.Or([z3.Function('stat_' + k, z3.IntSort(), z3.BoolSort())(mode) for k in SPECIAL_KINDS])
+            out['special_iff_character_or_block_device_fifo_or_socket'] = (b2z(c.result) == special, ['C16', 'C02'])
+        else:
+            out['a_file_that_does_not_exist_is_not_special'] = (z3.Not(b2z(c.result)) if not q else B(False), ['C16', 'C02'])
+        return out
+
+    ci = R.contracts[f'{UT}:OSUtils.is_special_file']
+    ci.props, ci.checks, ci.raises = ('C16', 'C02'), isf_checks, {'OSError': only_propagates}
+    ci.modifies = lambda c: []
 
     for t in (f'{UT}:OSUtils.get_file_size', f'{L}:OSUtils.get_file_size'):
         cg = R.contracts[t]
